@@ -4,7 +4,7 @@ CONSTANTS
  NParts <- NP32
  SubsChoices = {{"t1"},{"t2"},{"t1","t2"}}
  CommitTP <- CTP
- SessT = 2
+ SessChoices = {2}
  RebT = 2
  DefT = 30
  KeepT = {TRUE}
@@ -22,8 +22,13 @@ CONSTANTS
  DevExpireIgnoresHb = FALSE
  DevNoLaggerDrop = FALSE
  DevNoExpire = FALSE
+ DevLaggerSkippedOnExpiry = FALSE
+ DevSyncRefusesIdle = FALSE
+ DevHbWriteUnlocked = FALSE
+ DevCleanupWriteUnlocked = FALSE
+ DevSyncLookupUnlocked = FALSE
 INIT Init
 NEXT Next
 INVARIANTS EmitSched
-PROPERTIES C12_OnlySubscribed C12_ExactlyOne C12_ReplyFromMap C12_OneMapPerGen C13_StaleRejected C13_StaleNoCommit C13_GenMonotone C13_ReplyGen C14_JoinOK C14_Leader C14_ListOnlyLeader C14_SyncAfterLeader C15_RestoreEqual C15_KeepWorking C43_RemovedJustified C43_NoOverdue C43_Rebalances
+PROPERTIES C12_OnlySubscribed C12_ExactlyOne C12_ReplyFromMap C12_OneMapPerGen C13_StaleRejected C13_StaleNoCommit C13_GenMonotone C13_ReplyGen C14_JoinOK C14_Leader C14_ListOnlyLeader C14_SyncAfterLeader C15_RestoreEqual C15_NotFenced C15_KeepWorking C43_RemovedJustified C43_NoOverdue C43_Rebalances
 CHECK_DEADLOCK FALSE
